@@ -370,6 +370,7 @@ def spec_cross_entropy(mk: Any, cfg: Dict[str, Any]) -> Call:
             nv = mk.dim("n_valid", 1, 2 ** 20, sample=2)
             mk.assume(nv <= B)
             t.n_valid = nv  # number of targets different from ignore_index (documented 'mean' denominator)
+            mk.c.data_vars.append((mk.c.dims["n_valid"], None))  # it is a function of the target VALUES: data, not shape
             known = {"ignored-targets": _sreal(nv).z < _sreal(B).z}
         else:
             nv = int(mk.model.get("n_valid", max(1, int(B) - 1)))
@@ -590,7 +591,7 @@ def harness(cfg: Dict[str, Any], props: Sequence[str]) -> Callable[[Ctx], Any]:
                     c.oblige("fwd: c > 0", kf > 0, info={**base, "claim": "fwd"})
                     if call.unit:
                         c.oblige("fwd: c = 1", kf == 1, info={**base, "claim": "fwd_unit", "known": kn}, tol=approx(kf, z3.RealVal(1)))
-                    _data_independent(c, "fwd: c data-independent", kf, base)
+                    _data_independent(c, "fwd: c data-independent", kf, base, kn)
                 shp_ok = len(out.shape) == len(ref.shape)
                 sh_claim = z3.And([_sreal(a).z == _sreal(b).z for a, b in zip(out.shape, ref.shape)]) if shp_ok and len(out.shape) else z3.BoolVal(shp_ok)
                 c.oblige("fwd: same shape as reference", sh_claim, info={**base, "claim": "shape"})
@@ -627,7 +628,7 @@ def harness(cfg: Dict[str, Any], props: Sequence[str]) -> Callable[[Ctx], Any]:
                         else:
                             c.oblige(f"grad[{n}] = a * reference gradient", _eq_claim(gpairs), info={**base, "claim": "grad", "input": n})
                             c.oblige(f"grad[{n}]: a > 0", ka > 0, info={**base, "claim": "grad", "input": n})
-                            _data_independent(c, f"grad[{n}]: a data-independent", ka, base)
+                            _data_independent(c, f"grad[{n}]: a data-independent", ka, {**base, "input": n}, kn)
                     if not gm:
                         factors[n] = ka
             # ------------------------------------------------ exact unit scale (C03): only without constraint
@@ -679,14 +680,51 @@ def harness(cfg: Dict[str, Any], props: Sequence[str]) -> Callable[[Ctx], Any]:
     return h
 
 
-def _data_independent(c: Ctx, name: str, k: Any, base: Dict[str, Any]) -> None:
+def _data_independent(c: Ctx, name: str, k: Any, base: Dict[str, Any], known: Any = None) -> None:
+    """Two copies of the data symbols (and of everything derived: factors, roots), same shapes and
+    hyperparameters: the factor must coincide."""
     if not c.data_vars:
         return
-    subs = [(v, c.fresh("data2")) for v, _ in c.data_vars]
-    # two copies of the data symbols, same shapes/hyperparameters: the factor must coincide
-    defs2 = [z3.substitute(d, *subs) for d in c.assumes]
-    c.assumes += defs2
-    c.oblige(name, k == z3.substitute(k, *subs), info={**base, "claim": "data"})
+    data_ids = {v.get_id() for v, _ in c.data_vars}
+    shared = {v.get_id() for v in list(c.dims.values()) + list(c.reals.values())} - data_ids
+    cons = list(c.assumes) + list(c.defs)
+    free: Dict[int, Any] = {}
+    for d in cons + [k]:
+        for v in _free_vars(d):
+            free[v.get_id()] = v
+    subs = [(v, z3.Real(f"{v}__copy2")) for i, v in free.items() if i not in shared]
+    for d in cons:
+        d2 = z3.substitute(d, *subs)
+        if not d2.eq(d):
+            c.assumes.append(d2)
+    known2 = [(sfx, z3.Or(pred, z3.substitute(pred, *subs))) for sfx, pred in (known or [])]  # a listed input in either copy
+    c.oblige(name, k == z3.substitute(k, *subs), info={**base, "claim": "data" if "input" not in base else "data_grad", "known": known2})
+
+
+def _free_vars(e: Any) -> List[Any]:
+    out, stack, seen = [], [e], set()
+    while stack:
+        x = stack.pop()
+        if x.get_id() in seen:
+            continue
+        seen.add(x.get_id())
+        if z3.is_const(x) and x.decl().kind() == z3.Z3_OP_UNINTERPRETED:
+            out.append(x)
+        stack.extend(x.children())
+    return out
+
+
+def _mentions(e: Any, v: Any) -> bool:
+    stack, seen = [e], set()
+    while stack:
+        x = stack.pop()
+        if x.get_id() in seen:
+            continue
+        seen.add(x.get_id())
+        if x.eq(v):
+            return True
+        stack.extend(x.children())
+    return False
 
 
 def _plaincfg(cfg: Dict[str, Any]) -> Dict[str, Any]:
@@ -760,6 +798,9 @@ def replay_functional(obname: str, model: Dict[str, Any], info: Any) -> Tuple[bo
     if cfg.get("sm_dtype") and isinstance(cfg["sm_dtype"], str):
         cfg["sm_dtype"] = getattr(torch, cfg["sm_dtype"].split(".")[-1])
     claim = info.get("claim", "")
+    if info.get("mismatch"):
+        # structural mismatch: dims are unconstrained by the query - replay at the sample sizes (>= 2 elements per dim)
+        model = {k: v for k, v in model.items() if not isinstance(v, int) or isinstance(v, bool)}
     where = f"{cfg_name(cfg)} at {model}"
     if obname == "no-exception" or obname.startswith("definedness"):
         try:
@@ -767,11 +808,18 @@ def replay_functional(obname: str, model: Dict[str, Any], info: Any) -> Tuple[bo
         except Exception as e:
             return True, f"{where}: real call raises {type(e).__name__}: {e}"
         return False, f"{where}: real call does not raise"
+    model2 = dict(model)
+    if claim in ("data", "data_grad") and "n_valid" in model:
+        b = int(model.get("batch", 3))
+        other = model.get("n_valid__copy2")
+        model2["n_valid"] = int(other) if other is not None else (b if int(model["n_valid"]) != b else max(1, b - 1))
     try:
         m1 = measure(cfg, model, seed=1)
-        m2 = measure(cfg, model, seed=2)
+        m2 = measure(cfg, model2, seed=2)
     except Exception as e:
         return True, f"{where}: real call raises {type(e).__name__}: {e}"
+    if claim == "data_grad":
+        claim = "grad"
     if claim in ("fwd", "fwd_unit", "data"):
         (c1, d1), (c2, d2) = m1["out"], m2["out"]
         bad = []
